@@ -5,6 +5,7 @@ package main
 import (
 	"fmt"
 	"go/ast"
+	"go/printer"
 	"go/token"
 	"go/types"
 	"os"
@@ -143,4 +144,54 @@ func (p *Program) constString(pkgPath, name string) (string, bool) {
 		return "", false
 	}
 	return constStringVal(c)
+}
+
+// srcExprAt returns the source text of the binary expression (or statement) whose operator is at pos.
+func (p *Program) srcExprAt(pos token.Pos) string {
+	if pos == token.NoPos {
+		return ""
+	}
+	tf := p.fset.File(pos)
+	if tf == nil {
+		return ""
+	}
+	for _, pp := range p.ppkg {
+		for _, f := range pp.Syntax {
+			if p.fset.File(f.Pos()) != tf {
+				continue
+			}
+			var found ast.Node
+			ast.Inspect(f, func(n ast.Node) bool {
+				if n == nil || found != nil {
+					return false
+				}
+				if n.Pos() > pos || n.End() < pos {
+					return false
+				}
+				switch e := n.(type) {
+				case *ast.BinaryExpr:
+					if e.OpPos == pos {
+						found = e
+					}
+				case *ast.IncDecStmt:
+					if e.TokPos == pos {
+						found = e
+					}
+				case *ast.AssignStmt:
+					if e.TokPos == pos {
+						found = e
+					}
+				}
+				return true
+			})
+			if found != nil {
+				var b strings.Builder
+				if err := printer.Fprint(&b, p.fset, found); err == nil {
+					return strings.Join(strings.Fields(b.String()), " ")
+				}
+			}
+			return ""
+		}
+	}
+	return ""
 }
